@@ -60,6 +60,9 @@ fn ops(pad: &'static str) -> Vec<Vec<S>> {
         set("t", call("id", vec![s()])),
         make("s", add(l("M"), l("N"))),
         make("s", s()),
+        // re-declaration of the array in the same block (the old backing store is released)
+        make("a", E::Arr(vec![add(s(), l("r")), t()])),
+        make("a", a()),
         S::Expr(meth(a(), "push", vec![s()])),
         S::Expr(meth(a(), "push", vec![add(s(), l("p"))])),
         S::Expr(meth(a(), "push", vec![E::Arr(vec![s(), t()])])),
